@@ -45,6 +45,16 @@ structure OnlyAcl (d d' : Dev) (n : Name) : Prop where
   routes : d'.routes = d.routes
   intfs : d'.intfs = d.intfs
   mode : d'.mode = none
+  keys : d'.acls.map (·.1) = d.acls.map (·.1)
+
+theorem hasAcl_of_lines {d : Dev} {n : Name} (h : linesOf d n ≠ []) : hasAcl d n = true := by
+  unfold linesOf at h
+  cases hl : d.acls.lookup n with
+  | none => rw [hl] at h; exact absurd rfl h
+  | some ls =>
+    have := mem_of_lookup hl
+    unfold hasAcl
+    exact List.any_eq_true.mpr ⟨_, this, by simp⟩
 
 theorem exec1_acl_ok (d : Dev) (n : Name) (p : Nat) (l : RLine)
     (hg : ∀ g ∈ l.names, hasGroup d g = true)
@@ -67,7 +77,7 @@ theorem exec1_noAcl_ok (d : Dev) (n : Name) (p : Nat) (l : RLine)
 
 /-- Refinement of one line operation: `S` is the abstract line list, `dec` its decoding to printed lines. -/
 theorem refine_add (d : Dev) (n : Name) (S : List NA.Acl.Line) (dec : NA.Acl.Line → RLine) (p : Nat) (l : NA.Acl.Line)
-    (S' : List NA.Acl.Line) (hS : linesOf d n = S.map dec)
+    (S' : List NA.Acl.Line) (hS : linesOf d n = S.map dec) (hSne : S ≠ [])
     (hx : NA.Acl.asaExec1 S (.add p l) = some S')
     (hg : ∀ g ∈ (dec l).names, hasGroup d g = true)
     (hcode : ∀ x ∈ S, ((dec x).mkey == (dec l).mkey) = (x.mkey == l.mkey)) :
@@ -90,9 +100,10 @@ theorem refine_add (d : Dev) (n : Name) (S : List NA.Acl.Line) (dec : NA.Acl.Lin
           simp only [List.any_cons, Function.comp]
           rw [hcode t (hT t List.mem_cons_self), ih (fun x hx => hT x (List.mem_cons_of_mem _ hx))]
       exact this S (fun _ h => h)
+    have hex : hasAcl d n = true := hasAcl_of_lines (by rw [hS]; intro h; exact hSne (List.map_eq_nil_iff.mp h))
     refine ⟨_, exec1_acl_ok d n p (dec l) hg hdup (by rw [hS]; simpa using hc.1), ?_, ?_⟩
     · rw [linesOf_setAcl_self, hS, ← hx, map_insertIdx]
-    · exact ⟨fun n' h' => linesOf_setAcl_ne d n n' _ _ h', rfl, rfl, rfl, rfl, rfl⟩
+    · exact ⟨fun n' h' => linesOf_setAcl_ne d n n' _ _ h', rfl, rfl, rfl, rfl, rfl, keys_setAssoc_existing _ _ _ hex⟩
   · exact absurd hx (by simp)
 
 theorem refine_del (d : Dev) (n : Name) (S : List NA.Acl.Line) (dec : NA.Acl.Line → RLine) (p : Nat) (l : NA.Acl.Line)
@@ -110,9 +121,15 @@ theorem refine_del (d : Dev) (n : Name) (S : List NA.Acl.Line) (dec : NA.Acl.Lin
     have hne' : (linesOf d n).eraseIdx p ≠ [] := by
       rw [hS, ← map_eraseIdx, hx]
       intro h; exact hne (List.map_eq_nil_iff.mp h)
+    have hl'' : ∃ x xs, linesOf d n = x :: xs := by
+      cases hh : linesOf d n with
+      | nil => rw [hh] at hl; simp at hl
+      | cons x xs => exact ⟨x, xs, rfl⟩
+    obtain ⟨x0, xs0, hl''⟩ := hl''
+    have hex : hasAcl d n = true := hasAcl_of_lines (by rw [hl'']; simp)
     refine ⟨_, exec1_noAcl_ok d n p (dec l) hl hne', ?_, ?_⟩
     · rw [linesOf_setAcl_self, hS, ← map_eraseIdx, hx]
-    · exact ⟨fun n' h' => linesOf_setAcl_ne d n n' _ _ h', rfl, rfl, rfl, rfl, rfl⟩
+    · exact ⟨fun n' h' => linesOf_setAcl_ne d n n' _ _ h', rfl, rfl, rfl, rfl, rfl, keys_setAssoc_existing _ _ _ hex⟩
   · exact absurd hx (by simp)
 
 theorem asaExec1_move_split (S S' : List NA.Acl.Line) (dp ap : Nat) (a b : NA.Acl.Line)
@@ -141,7 +158,7 @@ theorem refine_move (d : Dev) (n : Name) (S : List NA.Acl.Line) (dec : NA.Acl.Li
   have hg1 : ∀ g ∈ (dec b).names, hasGroup d1 g = true := fun g hgm => by
     have : hasGroup d1 g = hasGroup d g := by simp [hasGroup, o1.groups]
     rw [this]; exact hg g hgm
-  obtain ⟨d2, e2, l2, o2⟩ := refine_add d1 n _ dec ap b S' l1 h2 hg1
+  obtain ⟨d2, e2, l2, o2⟩ := refine_add d1 n _ dec ap b S' l1 hne h2 hg1
     (fun x hxm => hcode x (mem_of_mem_eraseIdx hxm))
   have ej : exec1 d (.join (.noAcl n (dp + 1) (dec a)) (.acl n (some (ap + 1)) (dec b))) = .ok d2 := by
     show (match exec1 d (.noAcl n (dp + 1) (dec a)) with
@@ -150,6 +167,6 @@ theorem refine_move (d : Dev) (n : Name) (S : List NA.Acl.Line) (dec : NA.Acl.Li
     rw [e1]; exact e2
   refine ⟨d2, ej, l2, ?_⟩
   exact ⟨fun n' h' => (o2.others n' h').trans (o1.others n' h'), o2.groups.trans o1.groups,
-    o2.binds.trans o1.binds, o2.routes.trans o1.routes, o2.intfs.trans o1.intfs, o2.mode⟩
+    o2.binds.trans o1.binds, o2.routes.trans o1.routes, o2.intfs.trans o1.intfs, o2.mode, o2.keys.trans o1.keys⟩
 
 end NA.F1
